@@ -249,6 +249,7 @@ def _features(c):
     """what a behaviour exercises (used to guarantee a floor of behaviours per feature in the plan)"""
     nobj = 1 + c["n"] + c.get("k", 0)
     made_by = {}                 # object number -> action that created it
+    origin_of = {}               # object number -> object it was derived from
     fixed_by = {}                # object number -> variables fixed by the Condition that created it
     f = set()
     mutated = False
@@ -278,11 +279,15 @@ def _features(c):
             f.add("mutate_original_after_deriving")
         if act == "mutate_copy" and any(a == "to_likelihood" and oo == o for a, oo, _ in c["hist"][:pos]):
             f.add("mutate_underlying_of_likelihood")
+        if act == "mutate_copy" and src in ("cond_factor", "copy_enable_fd") and any(
+                a == "mutate_original" and made_by.get(o) is not None and oo == origin_of.get(o) for a, oo, _ in c["hist"][:pos]):
+            f.add("switch_original_then_copy")
         if act in ("mutate_copy", "mutate_original"):
             mutated = True
         if act in CREATING:
             nobj += 1
             made_by[nobj] = act
+            origin_of[nobj] = o
             if act == "condition":
                 fixed_by[nobj] = list(fixed_by.get(o, ())) + list(arg)
     return f
@@ -359,6 +364,16 @@ def replay_case(ctx, case, par, r, sweeps, seed):
                         if _mutate(tgt) is None:
                             _skip(ctx, act, "no_numeric_parameter")
                             return
+                        # ... and flips the public finite-difference switch of that object
+                        if hasattr(tgt, "enable_FD") and hasattr(tgt, "disable_FD"):
+                            try:
+                                if bool(tgt.FD_enabled):
+                                    tgt.disable_FD()
+                                else:
+                                    tgt.enable_FD()
+                                ctx.facets["mutate/fd_switch"] = ctx.facets.get("mutate/fd_switch", 0) + 1
+                            except Exception:
+                                ctx.facets["mutate/fd_switch_refused"] = ctx.facets.get("mutate/fd_switch_refused", 0) + 1
                     e["fp"] = pool.fingerprint(e)        # this object was changed deliberately; all others must be unchanged
                     for d in pool.objs:                  # ... except its views (likelihoods made by to_likelihood() wrap it)
                         if d.get("view_of") is e:
@@ -534,7 +549,7 @@ def run(ctx):
     allcases = cases + simcases + cases4
     feats = {json.dumps(c, sort_keys=True): _features(c) for c in allcases}
     wanted = ["act:condition", "act:logd", "act:gradient", "act:run_sampler", "act:gibbs", "act:apply_model", "act:mutate_copy", "act:cond_factor", "act:to_likelihood",
-              "act:copy_enable_fd", "act:sample", "act:bad_call", "act:mutate_original", "mutate_derived_likelihood", "mutate_original_after_deriving", "mutate_underlying_of_likelihood", "staged_condition", "staged_condition_n4", "gibbs_on_cond",
+              "act:copy_enable_fd", "act:sample", "act:bad_call", "act:mutate_original", "mutate_derived_likelihood", "mutate_original_after_deriving", "mutate_underlying_of_likelihood", "switch_original_then_copy", "staged_condition", "staged_condition_n4", "gibbs_on_cond",
               "sampler_on_cond", "derive_from_cond", "observe_after_mutate", "two_stage_partial_n4"]
     for ft in wanted:
         have = sum(1 for c in plan if ft in feats[json.dumps(c, sort_keys=True)])
